@@ -7,7 +7,7 @@ A_RNG = "A-RNG: rand::thread_rng().gen_range(lo..hi) returns some value in lo..h
 A_ORD = "A-ORD: the element type's Ord/PartialOrd is a lawful total order and Clone returns an equal value (lawful_ord / lawful_clone are preconditions; proved non-vacuous for u64, i64, usize)"
 A_STD = "A-STD: contracts of std functions used by the bodies (binary_search, sort_unstable, dedup, split_at_mut, Option/Vec basics) as stated in shim/"
 A_VERUS = "Verus 0.2026.09.13 + Z3 are sound; arithmetic overflow is checked by Verus on the executable text"
-A_EXTRACT = "the extractor copies bodies byte-for-byte apart from the rewrites R1-R21 listed in DESIGN.md 8a; the generated text is re-derived from /repo on every run"
+A_EXTRACT = "the extractor copies bodies byte-for-byte apart from the rewrites R1-R21 (incl. R19c, R19d) listed in DESIGN.md 8a; the generated text is re-derived from /repo on every run"
 A_ENUM = "bounded enumerations run the real crate (cfg hook on) and are complete only up to the stated bound"
 
 # witness search used when a Verus obligation of that function fails (replay enumeration name)
@@ -25,7 +25,7 @@ WITNESS = {
     "EquiSpaced::new": "strategies",
     "_get_many_from_sorted_mut_unchecked": "select_many",
     "quantiles_axis_mut_inner": "quantiles", "ArrL::quantiles_axis_mut": "quantiles", "ArrL::quantile_axis_mut": "quantiles", "ArrL::quantile_mut": "quantiles", "ArrL::quantiles_mut": "quantiles", "ArrL::quantile_axis_skipnan_mut": "skipnan",
-    "fold_skipnan": "skipnan", "indexed_fold_skipnan": "skipnan", "visit_skipnan": "skipnan", "min_skipnan": "skipnan", "max_skipnan": "skipnan",
+    "fold_skipnan": "skipnan", "indexed_fold_skipnan": "skipnan", "visit_skipnan": "skipnan", "min_skipnan": "skipnan", "max_skipnan": "skipnan", "fold_axis_skipnan": "skipnan", "ArrL::map_axis_skipnan_mut": "skipnan",
     "inner_weighted_var": "moments", "weighted_var": "moments", "weighted_std": "moments", "horner_method": "moments", "moments": "moments",
     "entropy": "entropy", "kl_divergence": "entropy", "cross_entropy": "entropy",
     "cov": "cov", "pearson_correlation": "cov",
@@ -200,9 +200,9 @@ PROPS.update({
     },
     "C14": {
         "level": "exploration",
-        "level_text": "proved core: Verus shows remove_nan_mut hands over exactly the non-missing elements of a lane (C04 clauses tagged C14), which is what quantile_axis_skipnan_mut / map_axis_skipnan_mut apply the plain operation to. fold_skipnan, indexed_fold_skipnan and visit_skipnan are verified from their extracted bodies (unit skipnan: the closure handed to ndarray's fold / for_each captures the user's FnMut, which Verus rejects, so the call is lowered mechanically to a loop over the visited items, R19): every element is visited exactly once, a missing one leaves the accumulator unchanged and every other one is handed to f with its not-NaN value (and, for the indexed form, its own index pattern, in logical order). min_skipnan and max_skipnan are verified as callers of fold_skipnan (the missing value when nothing is left, otherwise a not-missing element that bounds every not-missing element; induction over the fold trace; the inline closure and the intermediate result are named by the in-place rewrite R21). fold_axis_skipnan, map_axis_skipnan_mut, quantile_axis_skipnan_mut is verified in unit qglue (InvalidQuantile before EmptyInput; one value per lane: the missing value when the lane has no not-missing element, otherwise the plain quantile of its not-missing elements - the map_axis_mut closure is annotated with exactly that contract and checked against its body, which calls the verified quantile_axis_mut on the compacted lane; remove_nan_mut enters with the contract proved in unit nan). fold_axis_skipnan, map_axis_skipnan_mut, argmin_skipnan / argmax_skipnan (closures mutating captured variables) are compared on the real crate with filter-then-plain computed independently",
+        "level_text": "proved core: Verus shows remove_nan_mut hands over exactly the non-missing elements of a lane (C04 clauses tagged C14), which is what quantile_axis_skipnan_mut / map_axis_skipnan_mut apply the plain operation to. fold_skipnan, indexed_fold_skipnan and visit_skipnan are verified from their extracted bodies (unit skipnan: the closure handed to ndarray's fold / for_each captures the user's FnMut, which Verus rejects, so the call is lowered mechanically to a loop over the visited items, R19): every element is visited exactly once, a missing one leaves the accumulator unchanged and every other one is handed to f with its not-NaN value (and, for the indexed form, its own index pattern, in logical order). fold_axis_skipnan is verified the same way (R19d lowers ndarray's fold_axis to one accumulator per lane, started from init and threaded through the lane in axis order): one result per lane, the accumulator cloned over a missing element and handed to fold with the not-NaN value otherwise. min_skipnan and max_skipnan are verified as callers of fold_skipnan (the missing value when nothing is left, otherwise a not-missing element that bounds every not-missing element; induction over the fold trace; the inline closure and the intermediate result are named by the in-place rewrite R21). quantile_axis_skipnan_mut is verified in unit qglue (InvalidQuantile before EmptyInput; one value per lane: the missing value when the lane has no not-missing element, otherwise the plain quantile of its not-missing elements - the map_axis_mut closure is annotated with exactly that contract and checked against its body, which calls the verified quantile_axis_mut on the compacted lane; remove_nan_mut enters with the contract proved in unit nan). map_axis_skipnan_mut is verified in unit qglue (R19c lowers ndarray's map_axis_mut to a loop over the lanes, each exactly once): result j is the user's mapping applied to a 1-D view of exactly the not-missing elements of lane j. NOT under contract: argmin_skipnan / argmax_skipnan (closures mutating a captured variable, which Verus rejects); they, like everything above, are compared on the real crate with filter-then-plain computed independently",
         "level_note": "bounded: f64 and Option<i32> over 4-letter alphabets, every content for <= 4 elements, shapes 1-D..3-D incl. empty, every axis, 3 layouts; quantiles for q in {0,.3,.5,1} x {Lower,Higher,Nearest}",
-        "technique": "Verus contract on remove_nan_mut (core) + bounded enumeration of the skip-NaN API against filter-then-plain",
+        "technique": "Verus contracts on the extracted bodies of remove_nan_mut, the skip-NaN folds / visit / per-axis fold / per-lane map, min/max_skipnan and quantile_axis_skipnan_mut + bounded enumeration of the whole skip-NaN API (incl. argmin/argmax_skipnan) against filter-then-plain",
         "design_ref": "DESIGN.md 4 (C14)",
         "verus": [("nan", "N"), ("skipnan", "N"), ("qglue", "N")],
         "enum": [{"name": "skipnan"}],
